@@ -457,6 +457,44 @@ class _Interp:
         return out
 
     # ---- attribute load (with property dispatch)
+    def _class_level_mutable(self, v: AV, attr: str) -> Optional[str]:
+        memo = self.eng.__dict__.setdefault("_clm_attrs", None)
+        if memo is None:
+            # names bound at class level to a mutable display anywhere in the package (usually none)
+            memo = set()
+            for c_ in self.prog.classes.values():
+                for x_ in c_.node.body:
+                    if isinstance(x_, (ast.Assign, ast.AnnAssign)):
+                        for t_ in (x_.targets if isinstance(x_, ast.Assign) else [x_.target]):
+                            if isinstance(t_, ast.Name):
+                                memo.add(t_.id)
+            self.eng._clm_attrs = memo
+        if attr not in memo:
+            return None
+        names = list(v.types)
+        if not names and v.origins and any(o[0] in ("P", "G", "U") for o in v.origins) and not v.ext:
+            names = [c.name for c in self.prog.classes.values()]
+        hit = None
+        for t in names:
+            c = self.prog.classes.get(t)
+            seen = set()
+            while c is not None and c.name not in seen:
+                seen.add(c.name)
+                for x in c.node.body:
+                    if isinstance(x, (ast.Assign, ast.AnnAssign)):
+                        tg = x.targets if isinstance(x, ast.Assign) else [x.target]
+                        val = x.value
+                        if any(isinstance(t_, ast.Name) and t_.id == attr for t_ in tg) and val is not None and (
+                                isinstance(val, (ast.Dict, ast.List, ast.Set, ast.ListComp, ast.DictComp))
+                                or (isinstance(val, ast.Call) and isinstance(val.func, ast.Name) and val.func.id in ("dict", "list", "set", "defaultdict", "OrderedDict"))):
+                            # assigned on instances somewhere?  then it is an ordinary field with a class-level default
+                            inst = any(isinstance(y, ast.Attribute) and y.attr == attr and isinstance(y.ctx, ast.Store) and isinstance(y.value, ast.Name) and y.value.id == "self"
+                                       for m_ in c.methods.values() for y in ast.walk(m_.node))
+                            if not inst:
+                                hit = f"{c.module.name}.{c.name}.{attr}"
+                c = self.prog.classes.get(c.bases[0]) if c.bases else None
+        return hit
+
     def load_attr(self, st: State, v: AV, attr: str, node: Optional[ast.AST]) -> AV:
         out = BOTTOM
         if v.items is not None or v.scalar and not v.origins and not v.ext and not v.funcs:
@@ -491,6 +529,11 @@ class _Interp:
                     plain_needed = True
         for p in props:
             out = join(out, self.apply_summary(st, p, [v], {}, node or p.node, self_types=v.types))
+        # a class-level attribute bound to a mutable display (`_cache = {}` in the class body) and never assigned on the instance is
+        # one object shared by every instance: module-level state reached through `self`
+        shared_cls = self._class_level_mutable(v, attr)
+        if shared_cls is not None:
+            return join(out, AV(origins=[("G", shared_cls, ())]))
         if v.origins and plain_needed:
             if attr in X.ALIAS_ATTRS and not v.types:
                 out = join(out, v.with_(items=None, funcs=(), lits=()))
